@@ -238,48 +238,48 @@ fn andor_case(ka: u8, kc: u8, is_and: bool, negate: bool) {
     }
 }
 
-// @vt prop=C14 tier=quick bound="(?1 = ?2) AND (?3 < ?2) as a row filter; ?2 any INTEGER; (?1, ?3) kinds (INTEGER, INTEGER) and (NULL, INTEGER): sides TRUE/FALSE x TRUE/FALSE and NULL x TRUE/FALSE" outside="FLOAT/text operands here; deeper nesting; the select-list value" timeout=1800 mem=16
+// @vt prop=C14 tier=quick bound="(?1 = ?2) AND (?3 < ?2) as a row filter; ?2 any INTEGER; (?1, ?3) kinds (INTEGER, INTEGER) and (NULL, INTEGER): sides TRUE/FALSE x TRUE/FALSE and NULL x TRUE/FALSE" outside="FLOAT/text operands here; deeper nesting; the select-list value" timeout=1800 mem=20
 vt_proof_pred! { unwind = 4; fn c14_and() {
     andor_case(1, 1, true, false); andor_case(0, 1, true, false);
     kani::cover!(true, "w:reached_end");
 }}
 
-// @vt prop=C14 tier=thorough bound="(?1 = ?2) AND (?3 < ?2) as a row filter; (?1, ?3) kinds (INTEGER, NULL) and (NULL, NULL)" outside="FLOAT/text operands here; deeper nesting; the select-list value" timeout=1800 mem=16
+// @vt prop=C14 tier=thorough bound="(?1 = ?2) AND (?3 < ?2) as a row filter; (?1, ?3) kinds (INTEGER, NULL) and (NULL, NULL)" outside="FLOAT/text operands here; deeper nesting; the select-list value" timeout=1800 mem=20
 vt_proof_pred! { unwind = 4; fn c14_and_b() {
     andor_case(1, 0, true, false); andor_case(0, 0, true, false);
     kani::cover!(true, "w:reached_end");
 }}
 
-// @vt prop=C14 tier=quick bound="(?1 = ?2) OR (?3 < ?2) as a row filter; (?1, ?3) kinds (INTEGER, NULL) and (NULL, INTEGER)" outside="FLOAT/text operands here; deeper nesting; the select-list value" timeout=1800 mem=16
+// @vt prop=C14 tier=quick bound="(?1 = ?2) OR (?3 < ?2) as a row filter; (?1, ?3) kinds (INTEGER, NULL) and (NULL, INTEGER)" outside="FLOAT/text operands here; deeper nesting; the select-list value" timeout=1800 mem=20
 vt_proof_pred! { unwind = 4; fn c14_or() {
     andor_case(1, 0, false, false); andor_case(0, 1, false, false);
     kani::cover!(true, "w:reached_end");
 }}
 
-// @vt prop=C14 tier=thorough bound="(?1 = ?2) OR (?3 < ?2) as a row filter; (?1, ?3) kinds (INTEGER, INTEGER) and (NULL, NULL)" outside="FLOAT/text operands here; deeper nesting; the select-list value" timeout=1800 mem=16
+// @vt prop=C14 tier=thorough bound="(?1 = ?2) OR (?3 < ?2) as a row filter; (?1, ?3) kinds (INTEGER, INTEGER) and (NULL, NULL)" outside="FLOAT/text operands here; deeper nesting; the select-list value" timeout=1800 mem=20
 vt_proof_pred! { unwind = 4; fn c14_or_b() {
     andor_case(1, 1, false, false); andor_case(0, 0, false, false);
     kani::cover!(true, "w:reached_end");
 }}
 
-// @vt prop=C14 tier=quick bound="NOT ((?1 = ?2) AND (?3 < ?2)) as a row filter; (?1, ?3) kinds (INTEGER, INTEGER) and (INTEGER, NULL)" outside="FLOAT/text operands here; deeper nesting; the select-list value" timeout=1800 mem=16
+// @vt prop=C14 tier=quick bound="NOT ((?1 = ?2) AND (?3 < ?2)) as a row filter; (?1, ?3) kinds (INTEGER, INTEGER) and (INTEGER, NULL)" outside="FLOAT/text operands here; deeper nesting; the select-list value" timeout=1800 mem=20
 vt_proof_pred! { unwind = 4; fn c14_not_and() {
     andor_case(1, 1, true, true); andor_case(1, 0, true, true);
     kani::cover!(true, "w:reached_end");
 }}
 
-// @vt prop=C14 tier=quick bound="NOT ((?1 = ?2) OR (?3 < ?2)) as a row filter; (?1, ?3) kinds (INTEGER, INTEGER) and (NULL, INTEGER)" outside="FLOAT/text operands here; deeper nesting; the select-list value" timeout=1800 mem=16
+// @vt prop=C14 tier=quick bound="NOT ((?1 = ?2) OR (?3 < ?2)) as a row filter; (?1, ?3) kinds (INTEGER, INTEGER) and (NULL, INTEGER)" outside="FLOAT/text operands here; deeper nesting; the select-list value" timeout=1800 mem=20
 vt_proof_pred! { unwind = 4; fn c14_not_or() {
     andor_case(1, 1, false, true); andor_case(0, 1, false, true);
     kani::cover!(true, "w:reached_end");
 }}
 
-// @vt prop=C14 tier=thorough bound="NOT ((?1 = ?2) AND (?3 < ?2)) with (?1, ?3) kinds (NULL, INTEGER) and (NULL, NULL)" outside="FLOAT/text operands here; deeper nesting; the select-list value" timeout=3600 mem=16
+// @vt prop=C14 tier=thorough bound="NOT ((?1 = ?2) AND (?3 < ?2)) with (?1, ?3) kinds (NULL, INTEGER) and (NULL, NULL)" outside="FLOAT/text operands here; deeper nesting; the select-list value" timeout=3600 mem=20
 vt_proof_pred! { unwind = 4; fn c14_not_and_b() {
     andor_case(0, 1, true, true); andor_case(0, 0, true, true);
     kani::cover!(true, "w:reached_end");
 }}
-// @vt prop=C14 tier=thorough bound="NOT ((?1 = ?2) OR (?3 < ?2)) with (?1, ?3) kinds (INTEGER, NULL) and (NULL, NULL)" outside="FLOAT/text operands here; deeper nesting; the select-list value" timeout=3600 mem=16
+// @vt prop=C14 tier=thorough bound="NOT ((?1 = ?2) OR (?3 < ?2)) with (?1, ?3) kinds (INTEGER, NULL) and (NULL, NULL)" outside="FLOAT/text operands here; deeper nesting; the select-list value" timeout=3600 mem=20
 vt_proof_pred! { unwind = 4; fn c14_not_or_b() {
     andor_case(1, 0, false, true); andor_case(0, 0, false, true);
     kani::cover!(true, "w:reached_end");
@@ -306,42 +306,42 @@ fn in_case(kinds: [u8; 3], negated: bool, wrap_not: bool, both: bool) {
     }
 }
 
-// @vt prop=C14 tier=quick bound="?1 IN (?2, ?3) and ?1 NOT IN (?2, ?3), all any INTEGER: row filter and select-list value" outside="FLOAT members (IN compares floats with an epsilon); lists longer than 2; text" timeout=1800 mem=16
-vt_proof_pred! { unwind = 4; fn c14_in_list() {
+// @vt prop=C14 tier=quick bound="?1 IN (?2, ?3) and ?1 NOT IN (?2, ?3), all any INTEGER: row filter and select-list value" outside="FLOAT members (IN compares floats with an epsilon); lists longer than 2; text" timeout=1800 mem=24
+vt_proof_pred! { unwind = 3; fn c14_in_list() {
     in_case([1, 1, 1], false, false, true); in_case([1, 1, 1], true, false, true);
     kani::cover!(true, "w:reached_end");
 }}
 
-// @vt prop=C14 tier=quick bound="?1 IN (NULL, ?3), NULL IN (?2, ?3), ?1 NOT IN (?2, NULL) as row filters (the others any INTEGER)" outside="FLOAT members (IN compares floats with an epsilon); lists longer than 2; text; the select-list value for these (thorough: c14_in_list_null_value)" timeout=1800 mem=16
-vt_proof_pred! { unwind = 4; fn c14_in_list_null() {
+// @vt prop=C14 tier=quick bound="?1 IN (NULL, ?3), NULL IN (?2, ?3), ?1 NOT IN (?2, NULL) as row filters (the others any INTEGER)" outside="FLOAT members (IN compares floats with an epsilon); lists longer than 2; text; the select-list value for these (thorough: c14_in_list_null_value)" timeout=1800 mem=24
+vt_proof_pred! { unwind = 3; fn c14_in_list_null() {
     in_case([1, 0, 1], false, false, false); in_case([0, 1, 1], false, false, false); in_case([1, 1, 0], true, false, false);
     kani::cover!(true, "w:reached_end");
 }}
 
-// @vt prop=C14 tier=quick bound="NOT (?1 IN (?2, NULL)), NOT (?1 IN (?2, ?3)), NOT (?1 NOT IN (NULL, ?3)) as row filters" outside="FLOAT members (IN compares floats with an epsilon); lists longer than 2; text" timeout=1800 mem=16
-vt_proof_pred! { unwind = 4; fn c14_not_of_in_list() {
+// @vt prop=C14 tier=quick bound="NOT (?1 IN (?2, NULL)), NOT (?1 IN (?2, ?3)), NOT (?1 NOT IN (NULL, ?3)) as row filters" outside="FLOAT members (IN compares floats with an epsilon); lists longer than 2; text" timeout=1800 mem=24
+vt_proof_pred! { unwind = 3; fn c14_not_of_in_list() {
     in_case([1, 1, 0], false, true, false); in_case([1, 1, 1], false, true, false); in_case([1, 0, 1], true, true, false);
     kani::cover!(true, "w:reached_end");
 }}
 
-// @vt prop=C14 tier=thorough bound="?1 IN (?2, NULL), ?1 IN (NULL, NULL), NULL IN (NULL, ?3) as row filters" outside="FLOAT members (IN compares floats with an epsilon); lists longer than 2; text" timeout=3600 mem=16
-vt_proof_pred! { unwind = 4; fn c14_in_list_null_more_a() {
+// @vt prop=C14 tier=thorough bound="?1 IN (?2, NULL), ?1 IN (NULL, NULL), NULL IN (NULL, ?3) as row filters" outside="FLOAT members (IN compares floats with an epsilon); lists longer than 2; text" timeout=3600 mem=24
+vt_proof_pred! { unwind = 3; fn c14_in_list_null_more_a() {
     in_case([1, 1, 0], false, false, false); in_case([1, 0, 0], false, false, false); in_case([0, 0, 1], false, false, false);
     kani::cover!(true, "w:reached_end");
 }}
-// @vt prop=C14 tier=thorough bound="NULL IN (NULL, NULL), ?1 NOT IN (NULL, ?3), ?1 NOT IN (NULL, NULL) as row filters" outside="FLOAT members (IN compares floats with an epsilon); lists longer than 2; text" timeout=3600 mem=16
-vt_proof_pred! { unwind = 4; fn c14_in_list_null_more_b() {
+// @vt prop=C14 tier=thorough bound="NULL IN (NULL, NULL), ?1 NOT IN (NULL, ?3), ?1 NOT IN (NULL, NULL) as row filters" outside="FLOAT members (IN compares floats with an epsilon); lists longer than 2; text" timeout=3600 mem=24
+vt_proof_pred! { unwind = 3; fn c14_in_list_null_more_b() {
     in_case([0, 0, 0], false, false, false); in_case([1, 0, 1], true, false, false); in_case([1, 0, 0], true, false, false);
     kani::cover!(true, "w:reached_end");
 }}
-// @vt prop=C14 tier=thorough bound="NULL NOT IN (?2, ?3), NOT (NULL IN (?2, ?3)) as row filters" outside="FLOAT members (IN compares floats with an epsilon); lists longer than 2; text" timeout=3600 mem=16
-vt_proof_pred! { unwind = 4; fn c14_in_list_null_more_c() {
+// @vt prop=C14 tier=thorough bound="NULL NOT IN (?2, ?3), NOT (NULL IN (?2, ?3)) as row filters" outside="FLOAT members (IN compares floats with an epsilon); lists longer than 2; text" timeout=3600 mem=24
+vt_proof_pred! { unwind = 3; fn c14_in_list_null_more_c() {
     in_case([0, 1, 1], true, false, false); in_case([0, 1, 1], false, true, false);
     kani::cover!(true, "w:reached_end");
 }}
 
 // @vt prop=C14 tier=thorough bound="row filter and select-list value of ?1 IN (?2, NULL) and NULL IN (?2, ?3): INTEGER operands" outside="FLOAT members (IN compares floats with an epsilon); lists longer than 2; text" timeout=3600 mem=40
-vt_proof_pred! { unwind = 4; fn c14_in_list_null_value() {
+vt_proof_pred! { unwind = 3; fn c14_in_list_null_value() {
     in_case([1, 1, 0], false, false, true); in_case([0, 1, 1], false, false, true);
     kani::cover!(true, "w:reached_end");
 }}
@@ -366,29 +366,29 @@ fn between_case(kinds: [u8; 3], negated: bool, wrap_not: bool) {
     }
 }
 
-// @vt prop=C14 tier=quick bound="?1 BETWEEN ?2 AND ?3 (all INTEGER), ?1 BETWEEN NULL AND ?3, ?1 NOT BETWEEN ?2 AND NULL as row filters" outside="text; NaN; the select-list value" timeout=1800 mem=16
+// @vt prop=C14 tier=quick bound="?1 BETWEEN ?2 AND ?3 (all INTEGER), ?1 BETWEEN NULL AND ?3, ?1 NOT BETWEEN ?2 AND NULL as row filters" outside="text; NaN; the select-list value" timeout=1800 mem=24
 vt_proof_pred! { unwind = 4; fn c14_between() {
     between_case([1, 1, 1], false, false); between_case([1, 0, 1], false, false); between_case([1, 1, 0], true, false);
     kani::cover!(true, "w:reached_end");
 }}
 
-// @vt prop=C14 tier=quick bound="NOT (?1 BETWEEN ?2 AND NULL), NOT (?1 BETWEEN ?2 AND ?3), ?1 NOT BETWEEN ?2 AND ?3 (all INTEGER) as row filters" outside="text; NaN; the select-list value" timeout=1800 mem=16
+// @vt prop=C14 tier=quick bound="NOT (?1 BETWEEN ?2 AND NULL), NOT (?1 BETWEEN ?2 AND ?3), ?1 NOT BETWEEN ?2 AND ?3 (all INTEGER) as row filters" outside="text; NaN; the select-list value" timeout=1800 mem=24
 vt_proof_pred! { unwind = 4; fn c14_not_of_between() {
     between_case([1, 1, 0], false, true); between_case([1, 1, 1], false, true); between_case([1, 1, 1], true, false);
     kani::cover!(true, "w:reached_end");
 }}
 
-// @vt prop=C14 tier=thorough bound="BETWEEN over FLOATs, INTEGER (|x| <= 2^53) between FLOATs, NULL BETWEEN ?2 AND ?3 as row filters" outside="text; NaN; the select-list value" timeout=3600 mem=16
+// @vt prop=C14 tier=thorough bound="BETWEEN over FLOATs, INTEGER (|x| <= 2^53) between FLOATs, NULL BETWEEN ?2 AND ?3 as row filters" outside="text; NaN; the select-list value" timeout=3600 mem=24
 vt_proof_pred! { unwind = 4; fn c14_between_more_a() {
     between_case([2, 2, 2], false, false); between_case([1, 2, 2], false, false); between_case([0, 1, 1], false, false);
     kani::cover!(true, "w:reached_end");
 }}
-// @vt prop=C14 tier=thorough bound="?1 BETWEEN NULL AND NULL, ?1 NOT BETWEEN NULL AND ?3, NULL NOT BETWEEN ?2 AND ?3 as row filters" outside="text; NaN; the select-list value" timeout=3600 mem=16
+// @vt prop=C14 tier=thorough bound="?1 BETWEEN NULL AND NULL, ?1 NOT BETWEEN NULL AND ?3, NULL NOT BETWEEN ?2 AND ?3 as row filters" outside="text; NaN; the select-list value" timeout=3600 mem=24
 vt_proof_pred! { unwind = 4; fn c14_between_more_b() {
     between_case([1, 0, 0], false, false); between_case([1, 0, 1], true, false); between_case([0, 1, 1], true, false);
     kani::cover!(true, "w:reached_end");
 }}
-// @vt prop=C14 tier=thorough bound="NOT (NULL BETWEEN ?2 AND ?3), NOT (?1 BETWEEN NULL AND ?3) as row filters" outside="text; NaN; the select-list value" timeout=3600 mem=16
+// @vt prop=C14 tier=thorough bound="NOT (NULL BETWEEN ?2 AND ?3), NOT (?1 BETWEEN NULL AND ?3) as row filters" outside="text; NaN; the select-list value" timeout=3600 mem=24
 vt_proof_pred! { unwind = 4; fn c14_between_more_c() {
     between_case([0, 1, 1], false, true); between_case([1, 0, 1], false, true);
     kani::cover!(true, "w:reached_end");
